@@ -138,13 +138,20 @@ def run_jobs(check_module, jobs, nproc=None, progress=False, job_timeout=None):
         queue = sorted(js, key=lambda s: -s.get("weight", 1))
         workers = [_Worker(ctx, backend, check_module) for _ in range(min(nproc, len(queue)))]
         pending = len(queue)
+        n_timed_out = 0
         while pending:
             now = time.time()
             for w in list(workers):
-                if w.job is not None and now - w.t0 > w.job.get("job_timeout", job_timeout):
+                # circuit breaker: a change that makes symbolic execution diverge (an unbounded loop over a symbolic value)
+                # would make every job run into its wall limit; after 24 such jobs the remaining ones get 30 s each
+                limit = w.job.get("job_timeout", job_timeout) if w.job is not None else job_timeout
+                if n_timed_out >= 24:
+                    limit = min(limit, 30)
+                if w.job is not None and now - w.t0 > limit:
+                    n_timed_out += 1
                     results.append(dict(spec=w.job, wall=round(now - w.t0, 1), error=None, timed_out=True,
                                         inconclusive=["%s: job exceeded its wall limit of %ds and was stopped" % (
-                                            w.job.get("name"), w.job.get("job_timeout", job_timeout))]))
+                                            w.job.get("name"), limit)]))
                     if show:
                         print("  job %s: TIMEOUT" % w.job.get("name"), file=sys.stderr, flush=True)
                     pending -= 1
